@@ -27,7 +27,8 @@ type sysWorld struct {
 	srv      map[string]*l3.Server // root tld zone sub other plain
 	tampers  map[string][]tamper
 	tampered bool // some server has been scripted since `new` (sticky)
-	noAnchor bool
+	noAnchor bool // no live trust anchor
+	cleared  bool // … because the trust set was emptied in mid-history (caches may hold validated answers)
 	evil     *l3.KeyPair
 }
 
@@ -397,6 +398,75 @@ func (s *sysWorld) apply(t tamper, q dns.Question, m *dns.Msg) *dns.Msg {
 			}
 			return rr
 		})
+	case "ds-to-soa", "ds-to-nsec":
+		// the DS RRset of a referral / DS answer is swapped for another, validly signed RRset of the
+		// parent zone (its SOA, or the apex NSEC that says nothing about the child): signatures verify,
+		// but nothing proves the child has no DS
+		z := s.zoneOfSigs(m)
+		hadDS := false
+		each(func(rr dns.RR) dns.RR {
+			if rr.Header().Rrtype == dns.TypeDS || isSigFor(rr, dns.TypeDS) {
+				hadDS = true
+				return nil
+			}
+			return rr
+		})
+		if hadDS && z != nil && len(z.Keys) > 0 {
+			var set []dns.RR
+			if t.kind == "ds-to-soa" {
+				set = []dns.RR{dns.Copy(z.SOA)}
+			} else {
+				set = []dns.RR{&dns.NSEC{Hdr: dns.RR_Header{Name: z.Name, Rrtype: dns.TypeNSEC, Class: dns.ClassINET, Ttl: 300},
+					NextDomain: "aaa." + strings.TrimPrefix("."+z.Name, "."), TypeBitMap: []uint16{dns.TypeNS, dns.TypeSOA, dns.TypeRRSIG, dns.TypeNSEC, dns.TypeDNSKEY}}}
+			}
+			m.Ns = append(m.Ns, set[0], signWith(z.Keys[0], z.Name, set, z.SigInception, z.SigExpiration))
+			if q.Qtype == dns.TypeDS {
+				m.Answer = nil
+			}
+		}
+	case "ds-to-nssig":
+		// the DS RRset of a referral is dropped and a made-up RRSIG over the delegation NS RRset is added:
+		// authority NS records are never validated, so "some signature is present" must not count as proof
+		parentZone := ""
+		var nsOwner string
+		for _, rr := range m.Ns {
+			if sg, ok := rr.(*dns.RRSIG); ok && sg.TypeCovered == dns.TypeDS {
+				parentZone = sg.SignerName
+			}
+			if rr.Header().Rrtype == dns.TypeNS {
+				nsOwner = rr.Header().Name
+			}
+		}
+		if parentZone != "" && nsOwner != "" && !strings.EqualFold(nsOwner, parentZone) {
+			each(func(rr dns.RR) dns.RR {
+				if rr.Header().Rrtype == dns.TypeDS || isSigFor(rr, dns.TypeDS) {
+					return nil
+				}
+				return rr
+			})
+			m.Ns = append(m.Ns, &dns.RRSIG{Hdr: dns.RR_Header{Name: nsOwner, Rrtype: dns.TypeRRSIG, Class: dns.ClassINET, Ttl: 300},
+				TypeCovered: dns.TypeNS, Algorithm: dns.ECDSAP256SHA256, Labels: uint8(dns.CountLabel(nsOwner)), OrigTtl: 300,
+				Expiration: uint32(now.Add(time.Hour).Unix()), Inception: uint32(now.Add(-time.Hour).Unix()), KeyTag: 4242,
+				SignerName: parentZone, Signature: base64.StdEncoding.EncodeToString(seedBytes(4242, 64))})
+		}
+	case "replay-old":
+		// data the zone published in the past, with the signatures of that time (now expired):
+		// made with the zone's real key, so only the validity window stands in the way
+		z := s.zoneOfSigs(m)
+		if z != nil && len(z.Keys) > 0 && len(m.Answer) > 0 {
+			var out []dns.RR
+			for _, set := range rrsets(m.Answer) {
+				var old []dns.RR
+				for _, rr := range set {
+					old = append(old, flipRdata(dns.Copy(rr)))
+				}
+				out = append(out, old...)
+				if strings.HasSuffix(strings.ToLower(set[0].Header().Name), strings.ToLower(z.Name)) {
+					out = append(out, signWith(z.Keys[0], z.Name, old, now.Add(-60*24*time.Hour), now.Add(-24*time.Hour)))
+				}
+			}
+			m.Answer = out
+		}
 	case "stripnsec":
 		each(func(rr dns.RR) dns.RR {
 			if rr.Header().Rrtype == dns.TypeNSEC || isSigFor(rr, dns.TypeNSEC) {
@@ -467,6 +537,25 @@ func (s *sysWorld) apply(t tamper, q dns.Question, m *dns.Msg) *dns.Msg {
 			}
 			m.Answer = out
 		}
+	case "forge-answer": // the whole response is replaced by an unsigned authoritative answer of the attacker's choosing
+		var rr dns.RR
+		switch q.Qtype {
+		case dns.TypeA:
+			rr, _ = dns.NewRR(fmt.Sprintf("%s 300 IN A 6.6.6.6", q.Name))
+		case dns.TypeAAAA:
+			rr, _ = dns.NewRR(fmt.Sprintf("%s 300 IN AAAA 2001:db8::666", q.Name))
+		case dns.TypeTXT:
+			rr, _ = dns.NewRR(fmt.Sprintf("%s 300 IN TXT \"forged\"", q.Name))
+		case dns.TypeMX:
+			rr, _ = dns.NewRR(fmt.Sprintf("%s 300 IN MX 1 mail.evil.example.", q.Name))
+		case dns.TypeSOA:
+			rr, _ = dns.NewRR(fmt.Sprintf("%s 300 IN SOA ns.evil.example. h.evil.example. 666 1 1 1 1", q.Name))
+		}
+		if rr != nil {
+			m.Answer, m.Ns, m.Extra = []dns.RR{rr}, nil, nil
+			m.Rcode = dns.RcodeSuccess
+			m.Authoritative = true
+		}
 	case "nodata-forge": // a positive answer is replaced by an unsigned empty NOERROR
 		if len(m.Answer) > 0 {
 			m.Answer, m.Ns = nil, nil
@@ -518,6 +607,7 @@ func sysAnchors(f []string) vlib.Res {
 	}
 	resolver.VerifSetRootKeys(sys.p.Resolver, nil)
 	sys.noAnchor = true
+	sys.cleared = true
 	return vlib.Res{Impl: "ok"}
 }
 
@@ -605,7 +695,8 @@ func sysQuery(f []string) vlib.Res {
 			add("l3/ad/set-for-cd-client", "%s %s", name, f[3])
 		case !wantsAD:
 			add("l3/ad/set-without-do-or-ad", "%s %s", name, f[3])
-		case sys.noAnchor:
+		case sys.noAnchor && !(sys.cleared && isTruth):
+			// (after a mid-history loss of the anchors an answer validated earlier may still be served from cache)
 			add("l3/ad/set-without-trust-anchor", "%s %s", name, f[3])
 		case tr.Status != l3.Secure:
 			add("l3/ad/set-for-"+tr.Status+"-zone", "%s %s", name, f[3])
@@ -629,20 +720,25 @@ func sysQuery(f []string) vlib.Res {
 	if !fl.CD {
 		switch {
 		case sys.noAnchor:
-			if !servfail {
+			if !servfail && !(sys.cleared && isTruth) {
 				add("l3/no-anchor/answered-without-trust-anchor", "%s %s rcode=%s ans=%v", name, f[3], dns.RcodeToString[r.Rcode], l3.SortRRs(ans))
 			}
 		case tr.Status == l3.Secure:
 			if !servfail && !isTruth {
 				reason := "altered-data"
-				if sameRRs(ans, tr.Answer) {
+				switch {
+				case len(ans) == 0 && r.Rcode == dns.RcodeNameError:
+					reason = "unproven-nxdomain" // the name exists (or the honest denial is another one)
+				case len(ans) == 0 && r.Rcode == dns.RcodeSuccess:
+					reason = "unproven-nodata"
+				case sameRRs(ans, tr.Answer):
 					reason = "wrong-rcode"
-				} else if partialChain {
+				case partialChain:
 					reason = "partial-alias-chain-instead-of-servfail"
-				} else if allPublished {
+				case allPublished:
 					reason = "incomplete-or-foreign-published-data"
 				}
-				if hasTamper(sys, "evilkey") {
+				if onlyTamper(sys, "evilkey") {
 					reason += "/dnskey-rrset-signed-by-unanchored-key"
 				}
 				add("l3/secure/"+reason, "%s %s rcode=%s got=%v want=%s %v", name, f[3], dns.RcodeToString[r.Rcode], l3.SortRRs(ans), dns.RcodeToString[tr.Rcode], l3.SortRRs(tr.Answer))
@@ -670,15 +766,18 @@ func sysQuery(f []string) vlib.Res {
 	return vlib.Res{Impl: impl, Oracle: or, Tags: strings.Join(tags, ",")}
 }
 
-func hasTamper(s *sysWorld, kind string) bool {
+// onlyTamper: every script installed in this world is of the given kind.
+func onlyTamper(s *sysWorld, kind string) bool {
+	n := 0
 	for _, ts := range s.tampers {
 		for _, t := range ts {
-			if t.kind == kind {
-				return true
+			if t.kind != kind {
+				return false
 			}
+			n++
 		}
 	}
-	return false
+	return n > 0
 }
 
 // ------------------------------------------------------------------ generator
@@ -716,10 +815,14 @@ func genL3(r *vlib.R, emit func(string)) int {
 		qs = append(qs, sysQ{"www.sub.zone.test.", "A"}, sysQ{"alias.sub.zone.test.", "A"}, sysQ{"txt.sub.zone.test.", "TXT"},
 			sysQ{"nope.sub.zone.test.", "A"}, sysQ{"sub.zone.test.", "DS"})
 	}
-	flagSets := []string{"d", "d", "d", "-", "a", "dc", "c", "n", "da", "dca", "dt", "ac"}
+	flagSets := []string{"d", "d", "d", "d", "-", "-", "a", "dc", "c", "n", "n", "da", "dca", "dt", "ac", "at"}
+	var focus []sysQ // names whose resolution crosses a scripted server
 	ask := func(k int) {
 		for i := 0; i < k; i++ {
 			q := vlib.Pick(r, qs)
+			if len(focus) > 0 && r.Chance(3, 4) {
+				q = vlib.Pick(r, focus)
+			}
 			fl := vlib.Pick(r, flagSets)
 			e(fmt.Sprintf("l3 q %s %s %s", q.name, q.typ, fl))
 			fl2 := fl
@@ -732,9 +835,12 @@ func genL3(r *vlib.R, emit func(string)) int {
 	if r.Chance(1, 3) {
 		ask(1 + r.Intn(3)) // fill caches honestly first
 	}
-	nt := r.Intn(3)
-	if r.Chance(1, 6) {
+	nt := 1 + r.Intn(2)
+	if r.Chance(1, 7) {
 		nt = 0
+	}
+	if r.Chance(1, 10) {
+		nt = 3
 	}
 	servers := []string{"root", "tld", "zone", "zone", "zone", "other"}
 	if subk != "-" {
@@ -749,10 +855,27 @@ func genL3(r *vlib.R, emit func(string)) int {
 		{"dropsigs", "-", "data"}, {"dropsigs", "-", "all"}, {"dropsigs-answer", "-", "data"}, {"dropds", "-", "all"}, {"dropds", "-", "notkey"},
 		{"swapds", "-", "all"}, {"stripnsec", "-", "all"}, {"stripnsec", "-", "data"}, {"inject-answer", "-", "data"},
 		{"inject-answer-front", "-", "data"}, {"inject-ns", "-", "data"}, {"inject-extra", "-", "data"}, {"inject-inzone", "-", "data"},
-		{"addrr", "-", "data"}, {"nodata-forge", "-", "data"}, {"nxdomain-forge", "-", "data"},
-		{"evilkey", "plain", "all"}, {"evilkey", "keepsig", "all"}, {"evilkey", "replace", "all"}}
+		{"addrr", "-", "data"}, {"nodata-forge", "-", "data"}, {"nxdomain-forge", "-", "data"}, {"forge-answer", "-", "data"},
+		{"evilkey", "plain", "all"}, {"evilkey", "keepsig", "all"}, {"evilkey", "replace", "all"},
+		{"replay-old", "-", "data"}, {"replay-old", "-", "data"}, {"ds-to-soa", "-", "all"}, {"ds-to-nsec", "-", "all"}, {"ds-to-nssig", "-", "all"}}
 	if keys == "pairkk" {
 		kinds = append(kinds, tk{"clonekey", "-", "all"}, tk{"clonekey", "-", "all"}, tk{"evilkey", "sametag", "all"}, tk{"evilkey", "sametag", "all"})
+	}
+	if zone == "s" && r.Chance(1, 6) {
+		// downgrade attempts: the parent's referral loses the DS in some way AND the child serves forged unsigned data
+		nt = 0
+		how := vlib.Pick(r, []string{"dropds", "ds-to-nssig", "ds-to-nssig", "ds-to-soa", "ds-to-nsec", "swapds"})
+		parent := "tld"
+		if zsame == "t" {
+			parent = "zone"
+		}
+		e(fmt.Sprintf("l3 tamper %s %s - all", parent, how))
+		e(fmt.Sprintf("l3 tamper zone %s - data", vlib.Pick(r, []string{"forge-answer", "forge-answer", "dropsigs", "replay-old"})))
+		for _, q := range qs {
+			if strings.HasSuffix(q.name, "zone.test.") && !strings.HasSuffix(q.name, "sub.zone.test.") {
+				focus = append(focus, q)
+			}
+		}
 	}
 	for i := 0; i < nt; i++ {
 		k := vlib.Pick(r, kinds)
@@ -760,10 +883,27 @@ func genL3(r *vlib.R, emit func(string)) int {
 		if k.kind == "evilkey" || k.kind == "clonekey" {
 			srv = "zone"
 		}
-		if k.kind == "dropds" || k.kind == "swapds" {
+		if k.kind == "dropds" || k.kind == "swapds" || k.kind == "ds-to-soa" || k.kind == "ds-to-nsec" || k.kind == "ds-to-nssig" {
 			srv = vlib.Pick(r, []string{"tld", "tld", "zone", "root"})
 		}
 		e(fmt.Sprintf("l3 tamper %s %s %s %s", srv, k.kind, k.arg, k.scope))
+		for _, q := range qs {
+			under := func(z string) bool { return strings.HasSuffix(q.name, z) }
+			switch srv {
+			case "sub":
+				if under("sub.zone.test.") {
+					focus = append(focus, q)
+				}
+			case "other":
+				if under("other.test.") || strings.HasPrefix(q.name, "xalias.") {
+					focus = append(focus, q)
+				}
+			default:
+				if under("zone.test.") && !under("sub.zone.test.") {
+					focus = append(focus, q)
+				}
+			}
+		}
 	}
 	if anchors == "t" && r.Chance(1, 10) {
 		e("l3 anchors clear")
